@@ -282,6 +282,9 @@ def ceiling_clamp(cx, iid):
 
 
 SELFTEST = [
+    {"name": "send_rate() accessor re-floors the clamped rate (C13k-1)",
+     "edits": [{"file": "src/half_connection/send_rate.rs", "old": "        self.send_rate as f64\n", "new": "        self.send_rate.max(INITIAL_TCP_WINDOW) as f64\n"}],
+     "expect": ["C13.m"]},
     {"name": "F18 re-introduced: the configured ceiling narrowed with a wrapping cast",
      "edits": [{"file": "src/client/mod.rs", "old": "(self.config.endpoint_config.max_send_rate.min(u32::MAX as usize) as u32).min(frame.max_receive_rate)", "new": "(self.config.endpoint_config.max_send_rate as u32).min(frame.max_receive_rate)"}],
      "expect": ["C13.d"]},
